@@ -838,6 +838,12 @@ func (m *machine) drawPartial(t *rapid.T, pi int) ([]entry, delta) {
 func (m *machine) drawAnnounced(t *rapid.T, pi int, reply bool) ([]entry, delta) {
 	tr := m.trees[pi]
 	entries := []entry{{Spec: deviceInfo()}}
+	if !reply && rapid.IntRange(0, 5).Draw(t, "withoutEntityZero") == 0 {
+		// a complete notification that leaves the device information entity [0] out (down to an empty list when
+		// nothing else is left): [0] cannot go, everything else that is not listed does
+		entries = nil
+		world.Label("full/entity-0-not-listed")
+	}
 	var d delta
 	for i, addr := range addrDomain {
 		k := key(addr)
